@@ -54,6 +54,20 @@ def norm_env(env):
             "duplicate_refs": [rec(v) for v in env.get("duplicate_refs") or []]}
 
 
+def norm_titles(children):
+    """a link/image title taken from a definition whose title continues on a lazy line carries that line's leading blanks"""
+    out = []
+    for c in children or []:
+        c = dict(c)
+        if c.get("attrs"):
+            c["attrs"] = [[k, norm_inline(v) if k == "title" and isinstance(v, str) else v] for k, v in
+                          (c["attrs"].items() if isinstance(c["attrs"], dict) else c["attrs"])]
+        if c.get("children"):
+            c["children"] = norm_titles(c["children"])
+        out.append(c)
+    return out
+
+
 def lvl(ds, k):
     out = []
     for d in ds:
@@ -76,6 +90,8 @@ def same_block(a, b, loose):
                 for k in ("content", "children"):
                     x.pop(k, None)
                     y.pop(k, None)
+            if x["type"] == "inline" and x.get("children") != y.get("children"):
+                x["children"], y["children"] = norm_titles(x.get("children")), norm_titles(y.get("children"))
             if x["type"] == "definition" and x.get("meta") and y.get("meta"):
                 x["meta"] = {**x["meta"], "title": norm_inline(x["meta"].get("title", ""))}
                 y["meta"] = {**y["meta"], "title": norm_inline(y["meta"].get("title", ""))}
